@@ -34,6 +34,8 @@ ghost enum SyncCall {
     SetSync(NamespaceId, bool),
     Unsubscribe(NamespaceId),
     Close(NamespaceId),
+    /// `has_news_for_us(ns, heads)` was asked; the flag records whether the store answered `Ok(Some(_))` (news)
+    HasNewsForUs(NamespaceId, AuthorHeads, bool),
 }
 
 /// `crate::actor::SyncHandle`: handle to the replica-store thread. Ghost view `calls()`: the state-changing requests
@@ -50,14 +52,24 @@ impl Clone for SyncHandle {
     fn clone(&self) -> SyncHandle { unimplemented!() }
 }
 
-/// `crate::engine::gossip::GossipState`
+/// ghost record of the messages handed to the gossip layer
+ghost enum GossipMsg {
+    /// `broadcast(ns, bytes)`: to the whole swarm of the document
+    Swarm(NamespaceId, Seq<u8>),
+    /// `broadcast_neighbors(ns, bytes)`: to direct neighbours only
+    Neighbors(NamespaceId, Seq<u8>),
+}
+/// `crate::engine::gossip::GossipState`. Ghost view `sent()`: the messages handed to it so far.
 #[verifier::external_body]
 pub struct GossipState { _p: u8 }
 impl GossipState {
+    uninterp spec fn sent(&self) -> Seq<GossipMsg>;
     #[verifier::external_body]
     pub fn max_message_size(&self) -> usize { unimplemented!() }
     #[verifier::external_body]
-    pub async fn broadcast_neighbors(&mut self, namespace: &NamespaceId, message: Bytes) { unimplemented!() }
+    async fn broadcast_neighbors(&mut self, namespace: &NamespaceId, message: Bytes) -> (unit: ())
+        ensures final(self).sent() == old(self).sent().push(GossipMsg::Neighbors(*namespace, message@))
+    { unimplemented!() }
 }
 
 /// `crate::metrics::Metrics`
@@ -75,11 +87,16 @@ impl PartialEq for Hash {
     fn eq(&self, other: &Hash) -> bool { unimplemented!() }
 }
 impl Eq for Hash {}
+impl Copy for Hash {}
+impl std::hash::Hash for Hash {
+    #[verifier::external_body]
+    fn hash<H: std::hash::Hasher>(&self, state: &mut H) { unimplemented!() }
+}
 #[verifier::external_body]
 pub struct SignedEntry { _p: u8 }
 impl Clone for SignedEntry {
     #[verifier::external_body]
-    fn clone(&self) -> SignedEntry { unimplemented!() }
+    fn clone(&self) -> (r: SignedEntry) ensures r == *self { unimplemented!() }
 }
 
 /// `crate::AuthorHeads`: `encode` is unit U-henc's subject; here only "returns bytes or an error"
@@ -103,10 +120,14 @@ impl AnyhowError {
 /// postcard serialisation: total function returning bytes or an error (A-postcard)
 #[verifier::external_body]
 pub struct PostcardError { _p: u8 }
+/// the postcard encoding of a value (deterministic function of the value, A-postcard)
+pub uninterp spec fn postcard_bytes<T>(v: T) -> Seq<u8>;
 pub mod postcard {
     use super::*;
     #[verifier::external_body]
-    pub fn to_stdvec<T>(value: &T) -> std::result::Result<Vec<u8>, PostcardError> { unimplemented!() }
+    pub fn to_stdvec<T>(value: &T) -> (r: std::result::Result<Vec<u8>, PostcardError>)
+        ensures r is Ok ==> r->Ok_0@ == postcard_bytes(*value)
+    { unimplemented!() }
 }
 
 /// field types of `LiveActor` that the verified handlers never touch: opaque
@@ -121,8 +142,10 @@ pub struct Store { _p: u8 }
 pub struct Downloader { _p: u8 }
 #[verifier::external_body]
 pub struct MemoryLookup { _p: u8 }
+/// `ProviderNodes(Arc<Mutex<HashMap<Hash, HashSet<EndpointId>>>>)`: who is known to have which blob
 #[verifier::external_body]
-pub struct ProviderNodes { _p: u8 }
+pub struct ProvidersCell { _p: u8 }
+pub struct ProviderNodes(pub ProvidersCell);
 pub mod mpsc {
     #[verifier::external_body]
     #[verifier::reject_recursive_types(T)]
@@ -162,6 +185,8 @@ pub struct SubscribersMap { _p: u8 }
 #[verifier::external_body]
 pub struct QueuedHashes { _p: u8 }
 impl QueuedHashes {
+    /// ghost view: the queued (hash, document) pairs
+    uninterp spec fn queued(&self) -> ISet<(Hash, NamespaceId)>;
     #[verifier::external_body]
     pub fn contains_namespace(&self, namespace: &NamespaceId) -> bool { unimplemented!() }
 }
